@@ -79,6 +79,18 @@ func c03Cases(seed uint64, tier string) []core.Case {
 			}
 		}
 	}
+	// part B only (kept last): the chain name carried inside the claim is not voted on as such (the vote is routed
+	// by the wrapper's chain name); a voter that writes another chain of the same address format into it must
+	// not change what is executed
+	for rep := 0; rep < reps; rep++ {
+		for _, k := range c03Kinds {
+			for _, pos := range []string{"cross", "first"} {
+				ch := []string{"eth", "bsc"}[(rep+len(k))%2]
+				out = append(out, core.MkCase(fmt.Sprintf("C03-B-%s-inner_chain_name-%s-%d", k, pos, rep),
+					c03Spec{Part: "B", Seed: rng.Uint64(), Chain: ch, Kind: k, Field: "inner_chain_name", Pos: pos}))
+			}
+		}
+	}
 	return out
 }
 
@@ -315,6 +327,27 @@ func (g *claimGen) mutate(c crosschaintypes.ExternalClaim, field string) crossch
 		return g.migrate(c, field)
 	}
 	v := cloneClaim(c)
+	if field == "inner_chain_name" {
+		other := map[string]string{"eth": "bsc", "bsc": "eth", "polygon": "eth"}[g.chain]
+		if other == "" {
+			return nil
+		}
+		switch m := v.(type) {
+		case *crosschaintypes.MsgSendToFxClaim:
+			m.ChainName = other
+		case *crosschaintypes.MsgBridgeCallClaim:
+			m.ChainName = other
+		case *crosschaintypes.MsgBridgeTokenClaim:
+			m.ChainName = other
+		case *crosschaintypes.MsgSendToExternalClaim:
+			m.ChainName = other
+		case *crosschaintypes.MsgOracleSetUpdatedClaim:
+			m.ChainName = other
+		case *crosschaintypes.MsgBridgeCallResultClaim:
+			m.ChainName = other
+		}
+		return v
+	}
 	// a different value of a counter: the neighbour, or the same value plus 2^8 / 2^16 / 2^32 / 2^63 (equal
 	// after any narrowing conversion)
 	bump := func(x uint64) uint64 {
